@@ -144,7 +144,7 @@ func (c *Ctx) Sample(v any) {
 	c.mu.Unlock()
 }
 
-func (c *Ctx) TraceValidated() { c.mu.Lock(); c.traces++; c.mu.Unlock() }
+func (c *Ctx) TraceValidated()       { c.mu.Lock(); c.traces++; c.mu.Unlock() }
 func (c *Ctx) SetRule(r string)      { c.rule = r }
 func (c *Ctx) SetExhaustive(b bool)  { c.exhaustive = b }
 func (c *Ctx) Assume(s string)       { c.mu.Lock(); c.assume = append(c.assume, s); c.mu.Unlock() }
